@@ -77,6 +77,15 @@ def handle (op : String) (j : Json) : Option Json :=
     some (obj [("model", model), ("holds", Json.bool holds), ("expected", spec),
                ("tags", Json.arr (tags.map Json.str).toArray),
                ("trivial", Json.bool (start == []))])
+  | "cli.switches" =>
+    -- the real binary with LAYERROOT naming one installation and -basepath another (or the root
+    -- directory, which holds none): the switch comes first, whatever its spelling
+    let sp := getB j "basepath"
+    let namesA := (indexOf sp b!"@A").isSome
+    let impl := getObj j "impl"
+    let model := obj [("shows_env_tree", Json.bool false), ("shows_switch_tree", Json.bool namesA)]
+    some (obj [("model", model), ("holds", Json.bool (impl == model)),
+               ("tags", Json.arr #[Json.str "cli:basepath-switch"])])
   | _ => none
 
 end Lc.Driver.C18
